@@ -435,11 +435,11 @@ func init() {
 
 var h1Components = map[string]string{
 	"pkg/adaptation (request processing, result merging, registration, sync)": "real",
-	"pkg/stub":                           "real",
-	"pkg/net/multiplex, pkg/net":         "real",
-	"pkg/api generated ttRPC bindings":   "real",
-	"github.com/containerd/ttrpc v1.2.7": "real (sync import redirected to the simulator, nothing else changed)",
+	"pkg/stub":                                             "real",
+	"pkg/net/multiplex, pkg/net":                           "real",
+	"pkg/api generated ttRPC bindings":                     "real",
+	"github.com/containerd/ttrpc v1.2.7":                   "real (sync import redirected to the simulator, nothing else changed)",
 	"container runtime (store, SyncFn, UpdateFn, callers)": "harness",
-	"plugin handlers":                    "scripted harness code",
-	"unix socket, clock, locks, map order": "simulated",
+	"plugin handlers":                                      "scripted harness code",
+	"unix socket, clock, locks, map order":                 "simulated",
 }
